@@ -375,7 +375,15 @@ def _run(case, out, root):
                 res, exc, _, fired = INJECTOR.run(work, load, arm_at=k)
                 out.count("faulted_loads")
                 if exc is None:
+                    # a load that reports success has loaded everything (no half-loaded model stays registered)
+                    try:
+                        r = diff(expected[completed[-1]], model_desc(res))
+                    except Exception as exc2:
+                        r = "the loaded model cannot be described: %r" % (exc2,)
                     res.close()
+                    if r:
+                        return out.fail("half-loaded-model", "fault at event %d/%d %r of a load: read_model reported success "
+                                        "but the model differs from what was saved: %s" % (k, n, fired, r), None, k=k)
                 else:
                     if k > 2:
                         nt = True
